@@ -83,6 +83,25 @@ def handcrafted():
     out.append(hdr(0, 1) + b"\0" + rrh(16, 4) + b"\x00\x00\x00\x00")                # TXT of empty strings
     out.append(hdr(0, 0, 0, 1) + b"\0" + rrh(41, 7) + b"\x00\x03\x00\x08abc")       # OPT option longer than its data
     out.append(hdr(0, 0, 0, 2) + b"\0" + rrh(41, 0) + b"\0" + rrh(41, 4) + b"\0\1\0\0")
+    # rho-shaped pointer chains: the first pointer leads through a tail of `t` further pointers into a cycle of
+    # `k` pointers that does NOT contain the first target; reached from a question, an owner name, an rdata name
+    for t in (1, 2, 3, 4):
+        for k in (1, 2, 3, 4):
+            for where in ("q", "owner", "rdata"):
+                for labelled in (False, True):
+                    if labelled and (t + k) % 2:
+                        continue
+                    node = 4 if labelled else 2
+                    base = {"q": 18, "owner": 28, "rdata": 25}[where]
+                    offs = [base + node * i for i in range(t + k)]
+                    nxt = [offs[i + 1] for i in range(t + k - 1)] + [offs[t]]        # last cycle node -> first cycle node
+                    area = b"".join((b"\x01r" if labelled else b"") + _ptr(n) for n in nxt)
+                    if where == "q":
+                        out.append(hdr(1) + _ptr(base) + q + area)
+                    elif where == "owner":
+                        out.append(hdr(0, 1) + _ptr(base) + rrh(1, 4) + b"\x7f\0\0\1" + area)
+                    else:
+                        out.append(hdr(0, 1) + b"\0" + rrh(2, 2) + _ptr(base) + area)
     out.append(b"")
     out.append(b"\x00" * 11)
     out.append(b"\xff" * 12)
@@ -184,7 +203,8 @@ SPEC = Spec(
     model_equal=model_equal,
     nontrivial=lambda c, o: len(c["data"]) >= 24,
     case_timeout=5.0,
-    rule="hand-made packets: pointer to itself, 2-cycle, label-then-back, forward pointer into a cycle, a chain of "
+    rule="hand-made packets: pointer to itself, 2-cycle, rho-shaped chains (tail of 1-4 pointers into a cycle of 1-4 that "
+         "does not contain the first target; from a question, an owner name and an rdata name; bare and behind labels), label-then-back, forward pointer into a cycle, a chain of "
          "200 pointers, pointers past the end / into the header, label length bytes 63..191 whole and cut, counts of "
          "65535 without content, every record type with an rdlength smaller than its layout (followed or not by more "
          "data), A6 prefix lengths 0..255, TXT with rdlength beyond the data, OPT options longer than their data, "
